@@ -34,7 +34,7 @@ CHECKS = {
             "Each yield's reported wake-up time / cancellation is compared with what that yield requested, over thousands of seeded interleavings that include requests issued in Syscall states (what hooked waits and the cancel signal handler do).",
             "Requests are thread-local, so one thread per history.", "DESIGN.md §3 C09", "wl-core/coro"),
     "C10": ("exploration", "runtime monitoring: offline checker over resumption stamps and result maps (exactly-once results, delay lower/upper bound in passes, silence after cancel)",
-            "Hundreds to thousands of seeded schedules (1-40 coroutines, delays, panics, priorities, cancel requests between passes, random gaps) judged from body-side stamps and the scheduler's returned maps.",
+            "Hundreds to thousands of seeded schedules (1-40 coroutines; plain suspends, delays, waits parked inside a system call with a timeout the way EventLoop::wait_just parks them, panics, priorities; cancel requests and try_resume callbacks issued between passes, random gaps) judged from body-side stamps (time, pass, wake reason Timeout/Callback) and the scheduler's returned maps.",
             "One Scheduler at a time per process; pass budgets (150 ms) assumed never to be the limiting factor.", "DESIGN.md §3 C10", "wl-core/coro"),
     "C23": ("exploration", "runtime monitoring: in-callback stack-pointer/segment-bounds oracle over deep recursions incl. caught panics; process survival",
             "Inside every growth callback the stack pointer is located in a known segment and the room below it compared with the red zone; stack_infos() equality before/after (also after a caught panic); recursion of several stack sizes must survive, in coroutines and on plain threads.",
@@ -58,8 +58,8 @@ CHECKS = {
             "Cancelling a queued / running / suspended task must leave every other task untouched (all start, end and join with their own value), a queued target never starts and its waiter is settled. The lookup-then-signal window is forced deterministically.",
             "Single loop, single submitting thread. One known finding (signal lands on another coroutine).", "DESIGN.md §3 C13", "wl-core/loops"),
     "C14": ("exploration", "runtime monitoring: elapsed-time oracle on CLOCK_MONOTONIC (min of 3 attempts) + native-call differential for invalid arguments, each case able to kill its own process",
-            "Every hooked timed wait x context x duration (incl. unit boundaries, 4.4 s overflow probes, maximal values) must not return early and must return within 300 ms slack on the fastest of three attempts; invalid arguments must answer like the native call.",
-            "Core entry points with real libc underneath; the dylib's interposed symbols forward to them.", "DESIGN.md §3 C14", "wl-core/sys"),
+            "Every hooked timed wait x context x duration (incl. unit boundaries, 4.4 s overflow probes, maximal values) must not return early and must return within a slack derived from the scheduling noise measured around the case (50 ms + 20x the overshoot of a native 1 ms sleep, more for sliced waits; overloaded machine = inconclusive) on the fastest of three attempts; waits issued right after a recv with its own timeout was completed by data; invalid arguments must answer like the native call. A few scenarios run through the real LD_PRELOAD interposition (wl-hook).",
+            "Core entry points with real libc underneath for most cases; the dylib's interposed symbols forward to them and are exercised by the wl-hook scenarios.", "DESIGN.md §3 C14", "wl-core/sys"),
     "C15": ("exploration", "runtime monitoring: completion-time ratio oracle (N sleepers finish in ~d, not N*d) + sibling progress counter + late-arrival latency",
             "N blocked tasks on one loop must finish within max(2d, d+300 ms) while a computing sibling keeps advancing; a task submitted while the only worker is parked must not wait for the sleeper.",
             "Core entry points, not the dylib interposition layer.", "DESIGN.md §3 C15", "wl-core/loops"),
@@ -76,7 +76,7 @@ CHECKS = {
             "All histories up to length 4 (quick) / 6 (thorough) over set RCVTIMEO/SNDTIMEO, limit queries, a timed-out hooked recv, close + descriptor reuse; limits must equal the model (cross-checked with getsockopt), the recv must take about the limit, the process must not abort.",
             "Options set through the hooked setsockopt.", "DESIGN.md §3 C19", "wl-core/sys"),
     "C20": ("exploration", "runtime monitoring: wake-latency oracle + resume-by-token observer hook (token, hit/miss) over concurrent readiness waiters",
-            "A waiter whose descriptor became ready must return within 1 s of readiness (timeout is 3 s) and the loop must have seen a readiness event carrying its coroutine id; never-ready waiters must not return early; several waits inside one call.",
+            "A waiter whose descriptor became ready must return within 1 s of readiness (timeout is 3 s) and the loop must have seen a readiness event carrying its coroutine id; never-ready waiters must not return early; several waits inside one call. Interest histories: descriptors that are waited on in both directions, lose one or all interests (del_read_event/del_write_event/del_event), run into wait timeouts and are handed to fresh coroutines; every wait that is made ready must still be woken by an event with its own id. Duplex socket with a reader and a writer coroutine (known finding).",
             "epoll backend, 64-bit.", "DESIGN.md §3 C20", "wl-core/loops"),
     "C21": ("exploration", "runtime monitoring: model of outstanding interest vs the kernel's registrations read from /proc/self/fdinfo after every operation",
             "Seeded histories of wait/del/shutdown/close+reuse over 3 sockets, from threads and tasks, 1 and 2 loops; after each step the union of epoll registrations must equal the model. Multi-loop disagreements are known findings.",
@@ -85,7 +85,7 @@ CHECKS = {
             "Busy chains must be preempted (siblings run before 500 ms CPU), a coroutine in a Syscall state must not be suspended, preempted computations must produce reference results; with 4-12 scheduling threads the process dies (known finding).",
             "Linux x86-64 SIGURG preemption; cases without an observed preemption are inconclusive.", "DESIGN.md §3 C22", "wl-core/preempt"),
     "C27": ("exploration", "runtime monitoring under the io_uring build: unique-content own-result oracle per call, expected-errno oracle for negative completions, lost-completion detector; uring:after_submit pause hook forces the submit/register window",
-            "Concurrent coroutine and thread callers each check that every pwrite/pread/send/recv/mkdirat returns its own byte count, data or errno; a caller still blocked 5 s after the last completion is a lost completion.",
+            "Concurrent coroutine and thread callers each check that every pwrite/pread/send/recv/mkdirat returns its own byte count, data or errno; a caller still blocked 5 s after the last completion is a lost completion. A receive that waits for late data right after a completed send with a send timeout must not be ended by what that send left behind; a caller whose first call ran into its own SO_RCVTIMEO must still get own results afterwards (known finding: abort).",
             "Kernel 6.18 io_uring; positional reads on sockets are excluded (io_uring semantics differ).", "DESIGN.md §3 C27", "wl-core/uring"),
     "C28": ("exploration", "runtime monitoring: arithmetic oracles over boundary tables + seeded inputs; step-bounded execution of get_slices on a helper thread",
             "get_timeout_time must lie in [now+d] and saturate exactly when now+d overflows; get_slices pieces must each fit, be non-empty, sum to the total and count ceil(total/slice) without looping; zero socket limit means unlimited.",
@@ -144,6 +144,8 @@ ENGINES = [
      "kind_free_text": "Rust workload binary over the real work_steal.rs/ordered_work_steal.rs (#[path] include), run natively, under Miri and under TSan; online oracles"},
     {"name": "wl-core", "path": "/verif/wl-core", "serves_properties": ["C01", "C02", "C05", "C07", "C08", "C09", "C10", "C11", "C12", "C13", "C14", "C15", "C16", "C17", "C18", "C19", "C20", "C21", "C22", "C23", "C24", "C25", "C27", "C28"],
      "kind_free_text": "Rust workload binaries linked against /repo/core (path dependency, feature verif): generated programs + online oracles; rebuilt under ASan for thorough tiers"},
+    {"name": "wl-hook", "path": "/verif/wl-hook", "serves_properties": ["C02", "C14", "C15", "C18", "C23"],
+     "kind_free_text": "Rust binary run under LD_PRELOAD of the real open-coroutine-hook cdylib built from /repo: plain libc calls and dlsym'd C-ABI entry points (init, task create/join/timeout_join, maybe_grow_stack) with the same timing/outcome oracles"},
     {"name": "driver", "path": "/verif/check", "serves_properties": [],
      "kind_free_text": "python3 driver: builds, fans seeded case ranges out over processes, resumes after crashes/hangs, matches signatures against known_findings.json, writes evidence/replay"},
 ]
